@@ -36,6 +36,13 @@ package language
 
 //@ func evalNumberInfixExpression
 //@   requires typeis(left, "*Number") && typeis(right, "*Number")
+// C06: numbers are ordered by value (float64 comparison; the decimal semantics of DynamoDB numbers is C12, not applicable)
+//@   ensures[C06] operator == "=" ==> Truth(result, left.(*Number).Value == right.(*Number).Value)
+//@   ensures[C06] operator == "<>" ==> Truth(result, left.(*Number).Value != right.(*Number).Value)
+//@   ensures[C06] operator == "<" ==> Truth(result, left.(*Number).Value < right.(*Number).Value)
+//@   ensures[C06] operator == "<=" ==> Truth(result, left.(*Number).Value <= right.(*Number).Value)
+//@   ensures[C06] operator == ">" ==> Truth(result, left.(*Number).Value > right.(*Number).Value)
+//@   ensures[C06] operator == ">=" ==> Truth(result, left.(*Number).Value >= right.(*Number).Value)
 //@ func evalBinaryInfixExpression
 //@   requires typeis(left, "*Binary") && typeis(right, "*Binary")
 
